@@ -563,7 +563,18 @@ def run(ctx):
     if c.v != 1:
         raise AnalysisBroken('M1 control failed: %d violations on the fixture (1 expected)' % c.v)
     ctx.inst('C13.M1', 'fixtures/controls.cc', 'positive control nvctl::UnguardedWalk fires')
-    ctx.floor('C13.M1', 18)
+    # the recursion EdgeEnv::LookupVariable <-> EvalString::Evaluate ends in Fatal("cycle") only while
+    # the detection flag stays armed: once set it is never cleared again within the same EdgeEnv
+    arm = [(f2, e2, dstr(rhs)) for f2, e2, kind, rhs in field_writes(prog, 'EdgeEnv::recursive_')]
+    ctx.check('C13.M1', any(f2.name == 'EdgeEnv::LookupVariable' and v == 'true' for f2, e2, v in arm) and
+              all(v == 'true' or f2.name == 'EdgeEnv::EdgeEnv' for f2, e2, v in arm), 'EdgeEnv::LookupVariable', 'cycle-flag:disarmed',
+              'src/graph.cc', 'EdgeEnv::recursive_ is armed by the first lookup and never reset: %s' % [(f2.name, v) for f2, e2, v in arm])
+    lv = prog.fn('EdgeEnv::LookupVariable')
+    for e2 in lv.calls('BindingEnv::LookupWithFallback'):
+        pre = [x for x in lv.events('asg') if mentions_field(x['l'], 'EdgeEnv::recursive_') and dstr(x.get('r')) == 'true']
+        ctx.check('C13.M1', any(lv.dominates_ev(x, e2) for x in pre), lv.name, 'cycle-flag:not-armed-before-descent', lv.where(e2),
+                  'the flag is set before the nested evaluation starts')
+    ctx.floor('C13.M1', 20)
 
     # ---- L1: loop progress ---------------------------------------------------------------------------------
     R('C13.L1', 'LP', 'never hangs, position loops: in every loop whose condition compares a local position / '
@@ -584,6 +595,10 @@ def run(ctx):
     for f, v, bound, line, kind, verdict, detail, ns in lres:
         if verdict == 'undecided':
             undec.append('%s:%s %s (%s): %s' % (f.file, line, f.name, v, detail))
+            continue
+        if verdict == 'overread':
+            ctx.violation('C13.L1', f.name, 'sentinel-loop:steps-over-NUL:%s' % v, 'src/%s:%s' % (f.file, line),
+                          'the NUL-terminated scan on `%s` in %s advances past a byte that may be the terminator: %s' % (v, f.name, detail))
             continue
         ctx.check('C13.L1', verdict == 'progress', f.name, 'loop-without-progress:%s' % v, 'src/%s:%s' % (f.file, line),
                   'loop on `%s` (%s%s): every iteration advances it [%d abstract states]' % (
